@@ -186,6 +186,7 @@ func createCompiledRouteHandler(route *ast.Route, bytecode []byte, wsHub *websoc
 		}
 
 		// Parse and inject request body as 'input' for POST/PUT/PATCH requests
+		inputIsObject := false
 		if ctx.Request.Method == "POST" || ctx.Request.Method == "PUT" || ctx.Request.Method == "PATCH" {
 			contentType := ctx.Request.Header.Get("Content-Type")
 			shouldParseJSON := contentType == "" ||
@@ -208,6 +209,7 @@ func createCompiledRouteHandler(route *ast.Route, bytecode []byte, wsHub *websoc
 						return sendClientError(ctx, err.Error())
 					}
 					vmInstance.SetLocal("input", interfaceToValue(bodyMap))
+					inputIsObject = true
 				} else {
 					vmInstance.SetLocal("input", vm.NullValue{})
 				}
@@ -217,6 +219,14 @@ func createCompiledRouteHandler(route *ast.Route, bytecode []byte, wsHub *websoc
 			}
 		} else {
 			vmInstance.SetLocal("input", vm.NullValue{})
+		}
+		if !inputIsObject {
+			// No JSON object arrived (no body, not an object, unparsable, or
+			// not sent as JSON). That cannot satisfy an input type with
+			// required fields, and the route must not run on a null input then.
+			if err := validateCompiledInput(route, nil); err != nil {
+				return sendClientError(ctx, err.Error())
+			}
 		}
 
 		// Inject request headers as 'headers' object. Keys use Go's
